@@ -125,6 +125,37 @@ theorem C17_enforce_assembly (ord : Order) (dfs : Call → State → State × G)
       AnsS (solveAt dfs pf (M + 2)) (solveAt dfs pf (M + 2) (enforceFd ord x) s) (xs'.flatMap fun c => (o c).toList) :=
   enforce_compose dfs pf M ord x s N xs o h1 hb
 
+/-- `enforce_constraints_fd` ON THE ENGINE, END TO END.  From a state `s` with the labelling invariants (every state a
+    program of FD atoms reaches: `C17_labelling_invariants`) whose propagators' operands are numbers or variables with
+    domains: let the labelling of the query term `x` deliver the blocks `xs` (textbook evaluation within the model's fuel).
+    For every block, `verify_all_bound` passes, and the labelling of its domain variables finishes (`dsOf c`) and drains
+    within the peek fuel (`ysOf c`).  Then the goal delivers — in some engine order of the blocks — exactly the heads
+    `(ysOf c).head?`: for a block that describes a valuation ONE state, closed (empty domain store, no propagator) and
+    describing only valuations of the block; for a block whose labelling finds nothing NONE.  Every assignment of the query
+    term that extends to a solution is answered once; hidden variables add no answers. -/
+theorem C17_enforce_exactly_once {ord : Order} (ho : OrderOK ord) (dfs : Call → State → State × G) (pf M : Nat)
+    (x : Term) (s : State) (N : Nat) (xs : List State) (hi : LInv s) (hp : s.panic = none) (hops : OpsOK s)
+    (h1 : evalRef dfs N (forceAns ord forceFuel x) s = some xs) (hall1 : ∀ c ∈ xs, c.panic = none)
+    (NOf : State → Nat) (dsOf ysOf : State → List State)
+    (hblk : ∀ c ∈ xs, c.allBound = true ∧ c.dstore.length < forceFuel ∧
+      evalRef dfs (NOf c) (forceAns ord forceFuel (Term.ofList ((ord.ds c.dstore).map fun p => Term.var p.1))) c = some (dsOf c) ∧
+      (∀ t ∈ dsOf c, t.panic = none) ∧
+      drainF (solveAt dfs pf (M + 1)) pf
+        (start dfs (solveAt dfs pf (M + 1)) pf
+          (Goal.conjOfList [forceAns ord forceFuel (Term.ofList ((ord.ds c.dstore).map fun p => Term.var p.1))]) c) = some (ysOf c)) :
+    (∃ xs', xs.Perm xs' ∧
+      AnsS (solveAt dfs pf (M + 2)) (solveAt dfs pf (M + 2) (enforceFd ord x) s) (xs'.flatMap fun c => ((ysOf c).head?).toList)) ∧
+    (∀ c ∈ xs,
+      (∀ b, (ysOf c).head? = some b → b.dstore = [] ∧ (∀ p ∈ b.store, p.2.isDiseq = true) ∧ ∀ γ, Sem NoI γ b → Sem NoI γ c) ∧
+      ((∃ γ, Sem NoI γ c) → ((ysOf c).head?).isSome = true) ∧ (dsOf c = [] → (ysOf c).head? = none)) := by
+  have hb := blocks_inv ho dfs forceFuel N x s xs hi hp hops h1 hall1
+  have key : ∀ c ∈ xs, _ := fun c hc => by
+    obtain ⟨a1, a2, a3, a4, a5⟩ := hblk c hc
+    obtain ⟨li, oc, _⟩ := hb c hc
+    exact C17_hidden_onceo_model ho dfs pf M (NOf c) c (dsOf c) (ysOf c) a2 li (hall1 c hc) oc a3 a4 a5
+  refine ⟨enforce_compose dfs pf M ord x s N xs (fun c => (ysOf c).head?) h1 fun c hc => ?_, fun c hc => (key c hc).2⟩
+  exact ⟨hall1 c hc, (hblk c hc).1, (key c hc).1⟩
+
 /-! Non-vacuity.  `x, y in 1..2, x != y` (two solutions): `onceo` over the labelling of both variables delivers ONE closed
     state.  `x, y, z in 1..2`, pairwise different (no solution, but pairwise propagation does not see it): NO state. -/
 section Examples
@@ -146,6 +177,21 @@ example : (match postAllF Order.default (State.empty 3)
       let r := runF (solveAt dfs0 60 2) 600 (start dfs0 (solveAt dfs0 60 2) 60
         (Goal.onceo [forceAns Order.default 10 (Term.ofList [x, y, z])]) c)
       r.length == 0 && c.dstore.length == 3
+    | _ => false) = true := by decide +kernel
+/-- the whole of `enforce_constraints_fd` on the engine, query term `[x]`, hidden `y`: `x, y in 1..2, x != y` — ONE answer per
+    value of `x` (the hidden `y` is labelled once, not enumerated) -/
+example : (match postAllF Order.default (State.empty 2)
+      [.dom x (.interval 1 2), .dom y (.interval 1 2), .cst (.diseqfd x y)] with
+    | .ok c =>
+      let r := runF (solveAt dfs0 60 3) 900 (solveAt dfs0 60 3 (enforceFd Order.default (Term.ofList [x])) c)
+      r.length == 2 && r.all (fun b => b.dstore.length == 0 && b.store.length == 0)
+    | _ => false) = true := by decide +kernel
+/-- … and with hidden `y, z` that cannot be completed (three pairwise different variables over two values): NO answer -/
+example : (match postAllF Order.default (State.empty 3)
+      [.dom x (.interval 1 2), .dom y (.interval 1 2), .dom z (.interval 1 2),
+       .cst (.diseqfd x y), .cst (.diseqfd y z), .cst (.diseqfd x z)] with
+    | .ok c =>
+      (runF (solveAt dfs0 60 3) 1500 (solveAt dfs0 60 3 (enforceFd Order.default (Term.ofList [x])) c)).length == 0
     | _ => false) = true := by decide +kernel
 end Examples
 
